@@ -367,7 +367,7 @@ def discharge(facts, tn, f, bi, t, guard_rows):
     return None, "no guard, bound or table entry"
 
 
-def run_r2(ctx, rule, tn):
+def run_r2(ctx, rule, tn, only=None):
     facts = ctx.facts
     guard_rows = []
     for mod in ("ascii", "binary"):
@@ -381,6 +381,8 @@ def run_r2(ctx, rule, tn):
     n_t = 0
     for fid, f in sorted(facts.fns.items()):
         if not in_scope(f):
+            continue
+        if only is not None and not only(f):
             continue
         for bi, b in enumerate(f.blocks):
             if b["cleanup"]:
